@@ -62,6 +62,13 @@ def make_rhs(name, shape, seed=0):
             M = np.array([[0.0, k["c"]], [-k["c"], k["a"] * 0.25]], dtype=y.dtype)
             return M @ y - y @ M + np.cos(y.dtype.type(t)) * y.dtype.type(k["b"])
         return f, 4 * (abs(k["c"]) + 1)
+    if name in ("expgrow", "expdecay"):
+        # steep, and with a large step the stage equations of an implicit method have NO solution (k = exp(h k) for h = 1): the step must not be accepted
+        sg = 1.0 if name == "expgrow" else -1.0
+
+        def f(t, y, **kw):
+            return np.exp(y.dtype.type(sg) * y)
+        return f, float(np.exp(3.0))             # |y| <= 3
     raise KeyError(name)
 
 
